@@ -106,7 +106,9 @@ def locate (f : Bytes) : Except PyErr (Option Loc) :=
     if d.length ≠ 16 then .error .mutagen
     else
       let size := ofLE ((d.drop 4).take 4)
-      .ok (some { start := 0, endd := 32 + size, isAtStart := true })
+      -- "APE tag size exceeds the file size"
+      if 32 + size > f.length then .error .mutagen
+      else .ok (some { start := 0, endd := 32 + size, isAtStart := true })
 
 /-- `APEv2.save` given the rendered tag (`[]` when there are no items: nothing is written) -/
 def save (f : Bytes) (tag : Bytes) : Except PyErr Bytes :=
